@@ -184,6 +184,29 @@ func genC12(w *bufio.Writer, tier string, rng *rand.Rand) {
 		if mode != 0 && bmin == 0 && bmax == 0 {
 			bmax = spread
 		}
+		if rng.Intn(10) == 0 && mode != 0 && !forceWide {
+			// a boundary at exactly 0 (densities of non-negative or non-positive quantities): the data are
+			// shifted so that the lower (or the upper) boundary is 0
+			sh := bmin
+			if mode == 2 || (mode == 3 && rng.Intn(2) == 0) {
+				sh = bmax
+			}
+			if !math.IsInf(sh, 0) {
+				for i := range xs {
+					xs[i] -= sh
+				}
+				lo, hi = lo-sh, hi-sh
+				if !math.IsInf(bmin, 0) {
+					bmin -= sh
+				}
+				if !math.IsInf(bmax, 0) {
+					bmax -= sh
+				}
+				if bmin == 0 && bmax == 0 {
+					bmax = spread
+				}
+			}
+		}
 		// query grid: ascending, includes kernel support ends and the boundaries
 		var qs []float64
 		for i := 0; i < 6; i++ {
